@@ -183,9 +183,8 @@ func runC04(c *eng.Ctx) {
 		}
 		// incorrect offset: nack carries INCORRECT_OFFSET and is on the Append error edge
 		n := 0
-		for _, s := range eng.CallsIn(fn, sendAckRef) {
-			call := s.(*ssa.Call)
-			if ackErrorConst(call.Call.Args[1]) == "Ack_INCORRECT_OFFSET" {
+		for _, call := range nackSitesIn(c, fn, "Ack_INCORRECT_OFFSET") {
+			{
 				n++
 				ap := eng.CallsIn(fn, "server/commitlog.CommitLog.Append")
 				if len(ap) == 1 {
@@ -438,4 +437,36 @@ func ruleCommitRule(c *eng.Ctx) {
 		})
 		c.Check(okMin, "min keeps the smaller element", p.Pos(fn.Pos()), "m is replaced on v[i] < m", "server.min does not select the smaller element")
 	}
+}
+
+// nackSitesIn lists the instructions of fn that send a negative ack with the given error constant: direct sendAck calls
+// whose ack literal carries it, and synchronous calls to a module helper (one level) that does so — extracting the nack
+// into a helper called in place is behaviour-preserving and must not look like the nack has disappeared.
+func nackSitesIn(c *eng.Ctx, fn *ssa.Function, errName string) []ssa.Instruction {
+	var out []ssa.Instruction
+	direct := func(f *ssa.Function) bool {
+		found := false
+		for _, s := range eng.CallsIn(f, sendAckRef) {
+			if call, ok := s.(*ssa.Call); ok && ackErrorConst(call.Call.Args[1]) == errName {
+				found = true
+			}
+		}
+		return found
+	}
+	eng.Instrs(fn, func(in ssa.Instruction) {
+		call, ok := in.(*ssa.Call)
+		if !ok {
+			return
+		}
+		if eng.CalleeRef(&call.Call) == sendAckRef {
+			if ackErrorConst(call.Call.Args[1]) == errName {
+				out = append(out, in)
+			}
+			return
+		}
+		if sc := call.Call.StaticCallee(); sc != nil && c.P.IsModuleFunc(sc) && len(sc.Blocks) > 0 && direct(sc) {
+			out = append(out, in)
+		}
+	})
+	return out
 }
